@@ -1,9 +1,186 @@
-/- C03 driver: not written yet -/
+/-
+  C03 driver.  Input: what the real meshers did (harness/mesh.cpp via tools/checks/c03.py):
+    render <id> <alg>
+    t v0 v1 v2 v3 mask level          every tet marched (hook in simplex/hybrid_mesher.cpp)
+    r a0 b0 s0 a1 b1 s1 a2 b2 s2      every triangle pushed: per corner the tet edge and the surface vertex
+    q v0 v1 v2 v3 axisD choice        every DC quad (hook in dc_mesher.cpp)
+    c e c1 c2 (level type)x4          `load` calls with a coarser cell among the four (for the finding classification)
+    b i j k                           the real triangles (Mesh::branes)
+    endrender
+  Output per render: `ok <id> ...` or `MISMATCH <id> ...`, plus `H <id> ok|FAIL ...` and
+  `unmatched <id> a b c plus minus maxlevel touches-collapsed-cell` lines for faces violating hypothesis (H).
+-/
+import Std.Data.HashMap
 import Driver.Parse
+import LibfiveModel.Marching
+open Libfive.Marching
 
 namespace Driver.C03
 
-def run (_args : List String) (lines : Array String) : Array String :=
-  #[s!"MISMATCH driver-not-implemented {lines.size}"]
+abbrev T3 := Nat × Nat × Nat
+
+def t3lt (a b : T3) : Bool :=
+  a.1 < b.1 || (a.1 == b.1 && (a.2.1 < b.2.1 || (a.2.1 == b.2.1 && a.2.2 < b.2.2)))
+
+/-- rotate a triangle so that its smallest index comes first (orientation preserved) -/
+def rot3 (t : T3) : T3 :=
+  let (a, b, c) := t
+  if a ≤ b && a ≤ c then (a, b, c) else if b ≤ a && b ≤ c then (b, c, a) else (c, a, b)
+
+def sortTris (a : Array T3) : Array T3 := (a.map rot3).qsort t3lt
+
+structure Render where
+  id : String := ""
+  alg : String := ""
+  tets : Array (Tet × Nat × Nat) := #[]        -- tet, mask, level
+  tris : Array (Array Nat) := #[]               -- 9 numbers
+  quads : Array (Array Nat) := #[]              -- 6 numbers
+  coarse : Array (Array Nat) := #[]             -- 11 numbers: `load` calls with a cell of leaf level > 0
+  branes : Array T3 := #[]
+
+structure FaceInfo where
+  plus : Nat := 0
+  minus : Nat := 0
+  level : Nat := 0
+
+def checkSimplex (r : Render) : Array String := Id.run do
+  let mut out : Array String := #[]
+  let id := r.id
+  -- 1. sign function on vertex ids, consistent over all tets
+  let mut sign : Std.HashMap Nat Bool := {}
+  let mut bad : Option String := none
+  for (t, mask, _) in r.tets do
+    let vs := [t.v0, t.v1, t.v2, t.v3]
+    if t.v0 == t.v1 || t.v0 == t.v2 || t.v0 == t.v3 || t.v1 == t.v2 || t.v1 == t.v3 || t.v2 == t.v3 then
+      bad := some s!"tet-repeats-vertex {t.v0} {t.v1} {t.v2} {t.v3}"
+    let mut j := 0
+    for v in vs do
+      if v == 0 then bad := some s!"tet-uses-dummy-vertex {t.v0} {t.v1} {t.v2} {t.v3}"
+      let b := (mask >>> j) % 2 == 1
+      match sign.get? v with
+      | some b' => if b != b' then bad := some s!"sign-inconsistent vertex {v}"
+      | none => sign := sign.insert v b
+      j := j + 1
+    if mask ≥ 16 then bad := some s!"mask-out-of-range {mask}"
+  if let some b := bad then
+    return #[s!"MISMATCH {id} {b}"]
+  let s : Nat → Bool := fun v => (sign.get? v).getD false
+  -- 2. masks agree with the sign function (by construction) and the model's mask
+  for (t, mask, _) in r.tets do
+    if t.mask s != mask then return #[s!"MISMATCH {id} mask {mask} model {t.mask s}"]
+  -- 3. edge -> surface vertex map from the triangle records: functional and injective
+  let mut e2s : Std.HashMap (Nat × Nat) Nat := {}
+  let mut s2e : Std.HashMap Nat (Nat × Nat) := {}
+  let mut recTris : Array T3 := #[]
+  for rec in r.tris do
+    if rec.size != 9 then return #[s!"MISMATCH {id} tri-record-size"]
+    for k in [0, 1, 2] do
+      let a := rec[3 * k]!
+      let b := rec[3 * k + 1]!
+      let sv := rec[3 * k + 2]!
+      if !(s a) || s b then return #[s!"MISMATCH {id} edge-first-not-inside {a} {b}"]
+      match e2s.get? (a, b) with
+      | some sv' => if sv != sv' then return #[s!"MISMATCH {id} edge-two-surface-vertices {a} {b} {sv} {sv'}"]
+      | none => e2s := e2s.insert (a, b) sv
+      match s2e.get? sv with
+      | some e => if e != (a, b) then return #[s!"MISMATCH {id} surface-vertex-two-edges {sv}"]
+      | none => s2e := s2e.insert sv (a, b)
+    recTris := recTris.push (rec[2]!, rec[5]!, rec[8]!)
+  -- 4. the model's triangles, mapped through the edge map, against the real branes
+  let mut model : Array T3 := #[]
+  let mut missing := 0
+  for (t, mask, _) in r.tets do
+    for tri in marchTetM mask t do
+      match e2s.get? tri.1, e2s.get? tri.2.1, e2s.get? tri.2.2 with
+      | some a, some b, some c => model := model.push (a, b, c)
+      | _, _, _ => missing := missing + 1
+  if missing != 0 then return #[s!"MISMATCH {id} model-triangle-uses-unsearched-edge {missing}"]
+  let ms := sortTris model
+  let bs := sortTris r.branes
+  let rs := sortTris recTris
+  if ms != bs then
+    -- first difference
+    let mut k := 0
+    while k < ms.size && k < bs.size && ms[k]! == bs[k]! do k := k + 1
+    return #[s!"MISMATCH {id} triangles model {ms.size} real {bs.size} first-diff {k} model {ms[k]?} real {bs[k]?}"]
+  if rs != bs then return #[s!"MISMATCH {id} triangle-records-vs-branes {rs.size} {bs.size}"]
+  -- 5. hypothesis (H) on the dumped complex
+  let mut faces : Std.HashMap T3 FaceInfo := {}
+  let mut nfaces := 0
+  -- vertices of tets that lie in a coarser cell (leaf level > 0), and the edge / corner vertices
+  -- of every `load` call one of whose four cells is coarser (whether it was marched or not)
+  let mut collapsed : Std.HashMap Nat Unit := {}
+  for c in r.coarse do
+    for v in [c[0]!, c[1]!, c[2]!] do collapsed := collapsed.insert v ()
+  for (t, _, level) in r.tets do
+    if level > 0 then
+      for v in [t.v0, t.v1, t.v2, t.v3] do collapsed := collapsed.insert v ()
+  for (t, _, level) in r.tets do
+    for f in t.faces do
+      nfaces := nfaces + 1
+      let (k, p) := canon f
+      let fi := (faces.get? k).getD {}
+      let fi := if p then { fi with plus := fi.plus + 1 } else { fi with minus := fi.minus + 1 }
+      faces := faces.insert k { fi with level := max fi.level level }
+  let mut unmatched : Array String := #[]
+  let mut nun := 0
+  let mut nuniform := 0
+  for (k, fi) in faces do
+    if faceUniform s k then nuniform := nuniform + 1
+    else if fi.plus != 1 || fi.minus != 1 then
+      nun := nun + 1
+      if unmatched.size < 200 then
+        let touch := if collapsed.contains k.1 || collapsed.contains k.2.1 || collapsed.contains k.2.2 then 1 else 0
+        unmatched := unmatched.push s!"unmatched {id} {k.1} {k.2.1} {k.2.2} {fi.plus} {fi.minus} {fi.level} {touch}"
+  -- cross-check the hash-map implementation against the quadratic reference on small complexes
+  if nfaces ≤ 1500 then
+    let F := allFaces (r.tets.toList.map (·.1))
+    if hypHRef s F != (nun == 0) then return #[s!"MISMATCH {id} hypH-implementations-disagree"]
+  out := out.push s!"ok {id} tets {r.tets.size} tris {bs.size} faces {faces.size} uniform {nuniform} edges {e2s.size}"
+  if nun == 0 then out := out.push s!"H {id} ok"
+  else
+    out := out.push s!"H {id} FAIL {nun}"
+    out := out ++ unmatched
+  return out
+
+def checkDC (r : Render) : Array String := Id.run do
+  let id := r.id
+  let mut model : Array T3 := #[]
+  for q in r.quads do
+    if q.size != 6 then return #[s!"MISMATCH {id} quad-record-size"]
+    let d := q[4]! % 2 == 1
+    let alt := q[5]! == 1
+    for tri in dcQuad q[0]! q[1]! q[2]! q[3]! d alt do
+      model := model.push tri
+  let ms := sortTris model
+  let bs := sortTris r.branes
+  if ms != bs then
+    let mut k := 0
+    while k < ms.size && k < bs.size && ms[k]! == bs[k]! do k := k + 1
+    return #[s!"MISMATCH {id} dc-triangles model {ms.size} real {bs.size} first-diff {k} model {ms[k]?} real {bs[k]?}"]
+  return #[s!"ok {id} quads {r.quads.size} tris {bs.size}"]
+
+def finish (r : Render) : Array String :=
+  if r.alg == "dc" then checkDC r else checkSimplex r
+
+def run (_args : List String) (lines : Array String) : Array String := Id.run do
+  let mut out : Array String := #[]
+  let mut cur : Render := {}
+  for line in lines do
+    match words line with
+    | ["render", id, alg] => cur := { id := id, alg := alg }
+    | ["t", a, b, c, d, m, l] =>
+      cur := { cur with tets := cur.tets.push (⟨nat! a, nat! b, nat! c, nat! d⟩, nat! m, nat! l) }
+    | "r" :: rest => cur := { cur with tris := cur.tris.push (rest.map nat!).toArray }
+    | "q" :: rest => cur := { cur with quads := cur.quads.push (rest.map nat!).toArray }
+    | "c" :: rest =>
+      let a := (rest.map nat!).toArray
+      if a.size == 11 then cur := { cur with coarse := cur.coarse.push a }
+    | ["b", i, j, k] => cur := { cur with branes := cur.branes.push (nat! i, nat! j, nat! k) }
+    | ["endrender"] =>
+      out := out ++ finish cur
+      cur := {}
+    | _ => pure ()
+  return out
 
 end Driver.C03
